@@ -54,8 +54,19 @@ MODULES = {
     "pkg": "class P:\n    pass\n",
     "pkg.utils": "class B:\n    pass\n\n\nclass C:\n    pass\n\n\nclass Outer:\n    pass\n",
     "foo": "class Baz:\n    pass\n\n\nclass Other:\n    pass\n\n\nclass MyNoneTypeX:\n    pass\n",
-    "barfoo": "class Baz:\n    pass\n\n\nclass Qux:\n    pass\n",
+    # barfoo.foo is a CLASS named like the module foo, with a nested class: `barfoo.foo.Inner` must become `foo.Inner`,
+    # never `Inner`, also when module foo is stripped in the same signature
+    "barfoo": "class Baz:\n    pass\n\n\nclass Qux:\n    pass\n\n\nclass foo:\n    class Inner:\n        pass\n",
     "mytyping": "class Q:\n    pass\n",
+    # a user module whose name starts with an underscore (only `_io` is renamed by the import block)
+    "_impl": "class Handle:\n    pass\n",
+    # user generic classes nested in a class; subscripted aliases of them (ALIASES) are rendered through repr()
+    "shapes": "from typing import Generic, TypeVar\n\nT = TypeVar('T')\nU = TypeVar('U')\n\n\nclass Registry:\n"
+              "    class Entry(Generic[T]):\n        pass\n\n    class Pair(Generic[T, U]):\n        pass\n",
+    # a three-level chain of packages, each level with a class of its own
+    "zed": "class Z:\n    pass\n",
+    "zed.a": "class ZA:\n    pass\n",
+    "zed.a.b": "class ZAB:\n    pass\n",
 }
 
 # the class pool; order fixes the class numbering (>= 16 in order of first registration)
@@ -70,15 +81,42 @@ POOL = [
     ("_io", "StringIO"), ("_io", "BytesIO"),
     ("builtins", "int"), ("builtins", "str"), ("builtins", "bool"), ("builtins", "float"), ("builtins", "bytes"),
     ("builtins", "NoneType"),
+    # appended in wave 3 (indices above stay as they were)
+    ("barfoo", "foo"), ("barfoo", "foo.Inner"),
+    ("_impl", "Handle"), ("_impl", "K"),
+    ("_thread", "RLock"), ("_struct", "Struct"), ("_csv", "Dialect"), ("_random", "Random"), ("_queue", "SimpleQueue"),
+    ("shapes", "Registry"), ("shapes", "Registry.Entry"), ("shapes", "Registry.Pair"), ("shapes", "K"),
+    ("zed", "Z"), ("zed", "K"), ("zed.a", "ZA"), ("zed.a", "K"), ("zed.a.b", "ZAB"), ("zed.a.b", "K"),
 ]
 TARGETS = list(MODULES)
+# standard-library modules whose name starts with an underscore (types of threading.RLock(), struct.Struct(...), ...)
+STDLIB_UNDERSCORE = ["_io", "_thread", "_struct", "_csv", "_random", "_queue"]
+
+# subscripted user generics: (module, qualname of the nested generic class, builtin argument names).  In the class table
+# such an alias is a pseudo class whose qualname is the alias text ("Registry.Entry[int]"): that is how repr() prints it,
+# and its import root is still the outermost class.
+ALIASES = [("shapes", "Registry.Entry", ["int"]), ("shapes", "Registry.Entry", ["str"]),
+           ("shapes", "Registry.Pair", ["int", "str"])]
+
+
+def alias_text(i: int) -> str:
+    m, q, args = ALIASES[i]
+    return f"{m}.{q}[{', '.join(args)}]"
+
+
+def resolve_alias(i: int):
+    import builtins
+    m, q, args = ALIASES[i]
+    origin = resolve(m, q)
+    params = tuple(getattr(builtins, a) for a in args)
+    return origin[params if len(params) > 1 else params[0]]
 
 
 def write(root: str) -> None:
     for mod, body in MODULES.items():
         parts = mod.split(".")
-        if mod == "pkg":
-            path = os.path.join(root, "pkg", "__init__.py")
+        if any(other.startswith(mod + ".") for other in MODULES):
+            path = os.path.join(root, *parts, "__init__.py")
         else:
             path = os.path.join(root, *parts) + ".py"
         os.makedirs(os.path.dirname(path), exist_ok=True)
